@@ -92,6 +92,7 @@ counters!(
     probe_readbuf_edit,
     probe_concurrent_submit,
     probe_mt_release,
+    probe_pool_id_collision,
     // Totals.
     total_ops_created,
     total_ops_completed,
